@@ -394,6 +394,14 @@ def run(repo, rep, tier):
             if tv and isinstance(tv[1], ast.Call):
                 cn = call_name(tv[1])
                 if cn and cn.split('.')[-1] in sym.classes and st._func is None:
+                    # an instance of an immutable record type (NamedTuple / tuple / Enum subclass, frozen dataclass) carries no per-scan state
+                    cdef = next((c for mm in repo.modules.values() for c in ast.walk(mm.tree) if isinstance(c, ast.ClassDef) and c.name == cn.split('.')[-1]), None)
+                    bases = [unparse(b).split('.')[-1] for b in cdef.bases] if cdef is not None else []
+                    frozen = cdef is not None and any(isinstance(d, ast.Call) and unparse(d.func).split('.')[-1] == 'dataclass' and any(k.arg == 'frozen' and isinstance(k.value, ast.Constant) and k.value.value is True for k in d.keywords) for d in cdef.decorator_list)
+                    writes_self = cdef is not None and any(isinstance(x, ast.Attribute) and isinstance(x.ctx, (ast.Store, ast.Del)) and isinstance(x.value, ast.Name) and x.value.id == 'self' for x in ast.walk(cdef))
+                    if (set(bases) & {'NamedTuple', 'tuple', 'Enum', 'IntEnum'} or frozen) and not writes_self:
+                        rep.ob('per-scan', 'module/class-level instance of the immutable record type %s' % cn, True)
+                        continue
                     rep.check('per-scan', 'no module/class-level instance of a package class: %s' % stmt_text(st)[:60], False, st, 'long-lived instance of %s shared by all scans' % cn)
     for cls_name in ('SSH_Socket', 'Algorithms', 'SSH2_Kex', 'OutputBuffer'):
         sites = []
